@@ -201,7 +201,7 @@ Qed.
 
 Lemma is_one_lit_inv y : is_one_lit y = true -> exists s t, y = ELit LInt s t /\ go_int_lit s = Some 1%Z.
 Proof.
-  destruct y as [|k s t| | | | | | | | |]; simpl; try discriminate. destruct k; try discriminate.
+  destruct y as [|k s t| | | | | | | | | |]; simpl; try discriminate. destruct k; try discriminate.
   destruct (go_int_lit s) as [[|[]|]|] eqn:G; try discriminate. eauto.
 Qed.
 
@@ -212,7 +212,7 @@ Theorem assign_op_rule_preserves en l e s' h :
   exec en (SAssign l e) h = exec en s' h.
 Proof.
   intros Hen T R. unfold assign_op_rewrite in R.
-  destruct e as [| | | |o x y| | | | | |]; try discriminate.
+  destruct e as [| | | |o x y| | | | | | |]; try discriminate.
   destruct (expr_eqb (lval_expr l) x && rg_pure x && existsb (binop_eqb o) assign_op_ops) eqn:C; [|discriminate].
   apply andb_true_iff in C as [C Ops]. apply andb_true_iff in C as [E P]. apply expr_eqb_eq in E. subst x.
   pose proof (rg_pure_lval l P) as LP. pose proof (assign_op_ops_arith o Ops) as Ao.
